@@ -70,3 +70,120 @@ Theorem C01_oer_encode_decode : forall t v,
              forall rest, oer_dec t (bs ++ rest) = Some (v, rest).
 Proof. exact oer_encode_decode. Qed.
 Print Assumptions C01_oer_encode_decode.
+
+(* ===================================================================== *)
+(* Extensibility layer (coq/Rt/Ext.v, ExtProofs.v; notes/design/EXT.md): extensible SEQUENCE
+   { root, ..., additions } and extensible CHOICE { root, ..., extension alternatives } over the
+   base algebra.  std = true: X.691 / X.696; std = false: what the C does. *)
+From A1 Require Import Rt.Ext Rt.ExtFormat Rt.ExtProofs.
+
+(* -- unaligned PER: round trip.  [ext_count_ok]: under X.691 any count; for the C at most 64
+      additions / extension alternatives (refuted beyond: below) -- *)
+Theorem C01_ext_uper_roundtrip_in_stream : forall std t v bits rest,
+  wf_ety_uper t = true -> wt_ety_uper std t v -> ext_count_ok std t ->
+  ext_uper std t v = Some bits -> ext_uper_dec std t (bits ++ rest) = Some (v, rest).
+Proof. exact ext_uper_roundtrip_in_stream. Qed.
+Print Assumptions C01_ext_uper_roundtrip_in_stream.
+
+Theorem C01_ext_uper_roundtrip : forall std t v bytes,
+  wf_ety_uper t = true -> wt_ety_uper std t v -> ext_count_ok std t ->
+  ext_uper_encode std t v = Some bytes ->
+  ext_uper_decode std t bytes = Some (v, zlen bytes) /\ 1 <= zlen bytes.
+Proof. exact ext_uper_decode_roundtrip. Qed.
+Print Assumptions C01_ext_uper_roundtrip.
+
+Theorem C01_ext_uper_roundtrip_c_refuted :
+  exists t v bits, wf_ety_uper t = true /\ wt_ety_uper false t v /\
+    ext_uper false t v = Some bits /\ ext_uper_dec false t bits <> Some (v, []).
+Proof. exact ext_uper_roundtrip_c_refuted. Qed.
+Print Assumptions C01_ext_uper_roundtrip_c_refuted.
+
+Theorem C01_ext_uper_choice_roundtrip_c_refuted :
+  exists t v bits, wf_ety_uper t = true /\ wt_ety_uper false t v /\
+    ext_uper false t v = Some bits /\ ext_uper_dec false t bits <> Some (v, []) /\
+    ext_uper false t v <> ext_uper true t v.
+Proof. exact ext_uper_choice_roundtrip_c_refuted. Qed.
+Print Assumptions C01_ext_uper_choice_roundtrip_c_refuted.
+
+(* -- OER: round trip, for the C's reader and the X.696 reader alike -- *)
+Theorem C01_ext_oer_roundtrip_in_stream : forall std t v bs rest,
+  wf_ety_oer t = true -> wt_ety_oer t v -> ext_oer t v = Some bs ->
+  ext_oer_dec std t (bs ++ rest) = Some (v, rest).
+Proof. exact ext_oer_roundtrip_in_stream. Qed.
+Print Assumptions C01_ext_oer_roundtrip_in_stream.
+
+Theorem C01_ext_oer_roundtrip : forall std t v bs,
+  wf_ety_oer t = true -> wt_ety_oer t v -> ext_oer t v = Some bs ->
+  ext_oer_decode std t bs = Some (v, zlen bs).
+Proof. exact ext_oer_decode_roundtrip. Qed.
+Print Assumptions C01_ext_oer_roundtrip.
+
+(* -- DER / BER -- *)
+Theorem C01_ext_ber_roundtrip_in_stream : forall t v bs rest,
+  wf_ety_der t = true -> wt_ety_der t v = true -> ext_der t v = Some bs -> zlen bs <= rssize_max ->
+  ext_ber_dec t (bs ++ rest) = Some (v, rest).
+Proof. exact ext_ber_roundtrip_in_stream. Qed.
+Print Assumptions C01_ext_ber_roundtrip_in_stream.
+
+Theorem C01_ext_ber_roundtrip : forall t v bs,
+  wf_ety_der t = true -> wt_ety_der t v = true -> ext_der t v = Some bs -> zlen bs <= rssize_max ->
+  ext_ber_decode t bs = Some (v, zlen bs).
+Proof. exact ext_ber_decode_roundtrip. Qed.
+Print Assumptions C01_ext_ber_roundtrip.
+
+(* -- forward compatibility: a reader that knows only the first k additions gets the known part back and
+      leaves exactly what followed.  UPER/OER: provided every unknown present addition is one the reader's skip
+      routine gets over ([uper_skippable] / [oer_skippable]: anything under the standards; for the C only
+      encodings of 3n octets or the octet 00 / only empty encodings) -- *)
+Theorem C01_ext_uper_forward_compat : forall std tg root adds rvs avs bits rest k,
+  wf_ety_uper (ESeq tg root adds) = true -> wt_ety_uper std (ESeq tg root adds) (EVSeq rvs avs) ->
+  ext_count_ok std (ESeq tg root adds) ->
+  ext_uper std (ESeq tg root adds) (EVSeq rvs avs) = Some bits ->
+  all_enc (uper_encode std) (fun c => uper_skippable std c = true) (skipn k adds) (skipn k avs) ->
+  ext_uper_dec std (truncate_ty k (ESeq tg root adds)) (bits ++ rest) = Some (truncate_val k (EVSeq rvs avs), rest).
+Proof. exact ext_uper_forward_compat. Qed.
+Print Assumptions C01_ext_uper_forward_compat.
+
+Theorem C01_ext_uper_forward_compat_std : forall tg root adds rvs avs bits rest k,
+  wf_ety_uper (ESeq tg root adds) = true -> wt_ety_uper true (ESeq tg root adds) (EVSeq rvs avs) ->
+  ext_uper true (ESeq tg root adds) (EVSeq rvs avs) = Some bits ->
+  ext_uper_dec true (truncate_ty k (ESeq tg root adds)) (bits ++ rest) = Some (truncate_val k (EVSeq rvs avs), rest).
+Proof. exact ext_uper_forward_compat_std. Qed.
+Print Assumptions C01_ext_uper_forward_compat_std.
+
+Theorem C01_ext_uper_forward_compat_c_refuted :
+  exists t v k bits, wf_ety_uper t = true /\ wt_ety_uper false t v /\ ext_uper false t v = Some bits /\
+    ext_uper true t v = Some bits /\
+    ext_uper_dec false (truncate_ty k t) bits = None /\
+    ext_uper_dec true (truncate_ty k t) bits = Some (truncate_val k v, []).
+Proof. exact ext_uper_forward_compat_c_refuted. Qed.
+Print Assumptions C01_ext_uper_forward_compat_c_refuted.
+
+Theorem C01_ext_oer_forward_compat : forall std tg root adds rvs avs bs rest k,
+  wf_ety_oer (ESeq tg root adds) = true -> wt_ety_oer (ESeq tg root adds) (EVSeq rvs avs) ->
+  ext_oer (ESeq tg root adds) (EVSeq rvs avs) = Some bs ->
+  all_enc oer (oer_skippable std) (skipn k adds) (skipn k avs) ->
+  ext_oer_dec std (truncate_ty k (ESeq tg root adds)) (bs ++ rest) = Some (truncate_val k (EVSeq rvs avs), rest).
+Proof. exact ext_oer_forward_compat. Qed.
+Print Assumptions C01_ext_oer_forward_compat.
+
+Theorem C01_ext_oer_forward_compat_std : forall tg root adds rvs avs bs rest k,
+  wf_ety_oer (ESeq tg root adds) = true -> wt_ety_oer (ESeq tg root adds) (EVSeq rvs avs) ->
+  ext_oer (ESeq tg root adds) (EVSeq rvs avs) = Some bs ->
+  ext_oer_dec true (truncate_ty k (ESeq tg root adds)) (bs ++ rest) = Some (truncate_val k (EVSeq rvs avs), rest).
+Proof. exact ext_oer_forward_compat_std. Qed.
+Print Assumptions C01_ext_oer_forward_compat_std.
+
+Theorem C01_ext_oer_forward_compat_c_refuted :
+  exists t v k bs, wf_ety_oer t = true /\ wt_ety_oer t v /\ ext_oer t v = Some bs /\
+    ext_oer_dec false (truncate_ty k t) bs <> Some (truncate_val k v, []) /\
+    ext_oer_dec true (truncate_ty k t) bs = Some (truncate_val k v, []).
+Proof. exact ext_oer_forward_compat_c_refuted. Qed.
+Print Assumptions C01_ext_oer_forward_compat_c_refuted.
+
+Theorem C01_ext_ber_forward_compat : forall tg root adds rvs avs bs rest k,
+  wf_ety_der (ESeq tg root adds) = true -> wt_ety_der (ESeq tg root adds) (EVSeq rvs avs) = true ->
+  ext_der (ESeq tg root adds) (EVSeq rvs avs) = Some bs -> zlen bs <= rssize_max ->
+  ext_ber_dec (ESeq tg root (firstn k adds)) (bs ++ rest) = Some (EVSeq rvs (firstn k avs), rest).
+Proof. exact ext_ber_seq_fwd. Qed.
+Print Assumptions C01_ext_ber_forward_compat.
